@@ -2,6 +2,7 @@ mod backoff;
 mod e2e;
 mod gate;
 mod reconnect;
+mod socksd;
 mod tlsm;
 mod util;
 use util::*;
@@ -18,10 +19,12 @@ fn main() {
         let base = rt.block_on(rusty_penguin_lib::server::State::new()).expect("state");
         let mut tls_ctx: Option<tlsm::Ctx> = None;
         let mut world: Option<e2e::World> = None;
+        let mut socksd: Option<socksd::Socksd> = None;
         for c in read_cases(path) {
             let r = match c.first() {
                 Some(14) => gate::run_case(&rt, &base, &c[1..]),
                 Some(1) => world.get_or_insert_with(e2e::World::new).run_case(&c[1..]),
+                Some(18) if c.get(1) == Some(&7) => socksd.get_or_insert_with(socksd::Socksd::new).run_case(&c[2..]),
                 Some(17) => tls_ctx.get_or_insert_with(tlsm::Ctx::new).run_case(&c[1..]),
                 Some(19) if c.get(1) == Some(&1) => backoff::run_case(&c[2..]),
                 Some(19) if c.get(1) == Some(&2) => reconnect::run_case(&c[2..]),
@@ -38,6 +41,7 @@ fn main() {
         "tls" => tlsm::generate(&a, &mut out),
         "backoff" => backoff::generate(&a, &mut out),
         "reconnect" => reconnect::generate(&a, &mut out),
+        "socksd" => socksd::generate(&a, &mut out),
         _ => {
             eprintln!("usage: vh-app <gate|...> [--seed S] [--n N] [--mode M] [--replay FILE]");
             std::process::exit(2);
